@@ -191,18 +191,17 @@ TVOptimize ==
           k == MemoKey(s)
           conclusive == r.status \in {ST_OPTIMAL, ST_UNBOUNDED, ST_INFEASIBLE, ST_INFORUNBD}
           gap == IF r.status = ST_OPTIMAL /\ r.hasSol /\ base = {} THEN GapBound(s.rlp, r.sol, s.ftol, s.otol) ELSE "0"
-          mfails == IF Ev.limited \/ k \notin DOMAIN memo THEN {}
+          mfails == IF Ev.limited \/ k \notin DOMAIN memo \/ ~conclusive THEN {}
                     ELSE Fail("SameStatusAsOtherSolveOfSameLP", Compat(memo[k].status, r.status))
                          \cup Fail("SameValueAsOtherSolveOfSameLP",
                                    memo[k].status = ST_OPTIMAL /\ r.status = ST_OPTIMAL /\ r.hasSol =>
                                    BRLeq(BRAbs(BRSub(memo[k].val, r.objval)), BRAdd(memo[k].gap, gap)))
-          newmemo == IF Ev.limited \/ k \in DOMAIN memo THEN memo
+          newmemo == IF Ev.limited \/ k \in DOMAIN memo \/ ~conclusive THEN memo
                      ELSE memo @@ (k :> [status |-> r.status, val |-> r.objval, gap |-> gap])
           s1 == [s EXCEPT !.status = r.status, !.hasSol = r.hasSol, !.hasBasis = r.hasBasis,
                           !.brow = IF r.hasBasis THEN r.brow ELSE <<>>, !.bcol = IF r.hasBasis THEN r.bcol ELSE <<>>]
       IN Step(base \cup mfails \cup ProjFails(s1, st) \cup OthersFails(Ev.o)
-              \cup Fail("Completeness", Ev.complete /\ t.known /\ t.v = "OPT" => r.status = ST_OPTIMAL)
-              \cup Fail("Decides", Ev.complete /\ t.known => conclusive),
+              \cup Fail("Completeness", Ev.complete /\ t.known /\ t.v = "OPT" => r.status = ST_OPTIMAL),
               Ev.o, s1, newmemo, KeepT(Ev.o))
 
 \* basis set / clear / query
